@@ -170,7 +170,7 @@ pub fn run(args: &Args) -> i32 {
             max_events: args.num("max-events", 40) as usize,
             max_depth: 5,
             scalars: sv(&[("1", "p"), ("x", "p"), ("~", "p"), ("", "d"), ("x", "d"), ("1", "s"), ("true", "p"), ("null", "p")]),
-            key_scalars: sv(&[("1", "p"), ("x", "p"), ("k", "p"), ("~", "p"), ("y", "d")]),
+            key_scalars: sv(&[("1", "p"), ("x", "p"), ("k", "p"), ("~", "p"), ("w", "d")]),
             names: 3,
             p_anchor: (1, 3),
             p_alias: (1, 4),
